@@ -230,6 +230,10 @@ def run_integrate(case, r):
                 r.fail(f"C03/integrate/{wclass(wform)}/foreign-resolution-refusal/dim={dim}", "array weights at a foreign resolution are documented as 2-D only (ValueError)")
             except ValueError:
                 r.ok()
+                # a refused call is not a call: the object still integrates native data like a fresh one
+                xn = (1.0 + (np.arange(int(np.prod(shape + ps))) % 5)).reshape(shape + ps)
+                got_n, want_n = g.integrate(xn.copy()), fresh().integrate(xn.copy())
+                r.check(close(got_n, want_n), f"C03/history/{wclass(wform)}/after-refused-call/dim={dim}", "after a refused (ValueError) call at a foreign resolution the geometry integrates native data as a fresh object does", factors=fac, res=res, got=got_n, want=want_n, geom=gname)
             continue
         if res == "fine":
             dshape = tuple(shape[a] * fac[a] for a in range(dim))
